@@ -43,4 +43,5 @@ public:
 };
 enum Tone { DULL, BRIGHT = 4 };
 int paint(Tone tone, int coats);
+float halve(float x);
 #endif
